@@ -45,7 +45,16 @@ Req_c02 ==
                             h \in { <<>>, <<"host: h.example", "cookie: a=1; b=2">> }, x \in Xffs,
                             c \in {"127.0.0.1", "127.0.0.9"} }
   \cup { R(m, "/api/post", "", <<"content-length: 3", "content-type: text/plain">>, x, "616263", "127.0.0.1") : m \in {"POST", "PUT"}, x \in Xffs }
-Req_quick == { r \in Req_c02 : r.m \in {"GET", "POST"} /\ r.peer = "127.0.0.1" /\ r.uri \in {"/api/x", "/api", "/api/post"} }
+\* requests with many header lines among which names repeat (x-trace every 5th, via every 7th, values descending so that
+\* no sort by value restores them): the forwarded request must keep same-named lines in the client's order however many
+\* lines there are - counts around the thresholds at which library sorts change algorithm (20, 32) and beyond.  Added after
+\* a seeded sort_unstable_by in Headers::iter was missed (round 7): the forwarding family had at most three lines.
+ReqHdrsMany(n) == [i \in 1..n |-> IF i % 5 = 0 THEN "x-trace: span-" \o ToString(n - i)
+                                  ELSE IF i % 7 = 0 THEN "via: 1.1 hop" \o ToString(100 - i)
+                                  ELSE "x-h" \o ToString(i) \o ": v" \o ToString(i)]
+Req_many == { R("GET", "/api/x", "", ReqHdrsMany(n), x, "-", "127.0.0.1") : n \in {19, 20, 31, 32, 33, 40, 47, 64}, x \in { <<>>, <<"203.0.113.7">> } }
+Req_quick == { r \in Req_c02 : r.m \in {"GET", "POST"} /\ r.peer = "127.0.0.1" /\ r.uri \in {"/api/x", "/api", "/api/post"} } \cup Req_many
+Req_full == Req_c02 \cup Req_many
 \* requests whose body is followed by `pad` MiB of filler (the harness adds the Content-Length): 0 fits the socket
 \* buffers, 8 and 32 do not when the target never reads
 ReqPad(p, x) == [R("POST", "/api/up", "", <<"host: h.example", "content-length: " \o ToString(2 + p * 1048576)>>, x, "6162", "127.0.0.1") EXCEPT !.pad = p]
